@@ -2,7 +2,7 @@
 From Coq Require Import ExtrOcamlBasic.
 From Coq Require Extraction.
 From Coq Require Import NArith ZArith List Strings.Byte.
-From Muscle Require Import Gen.Consts Msg.MsgDefs Msg.MsgModel Msg.MsgApi Flt.FltModel Flt.FltArchive Flt.FltParse Flt.FltMatch.
+From Muscle Require Import Gen.Consts Msg.MsgDefs Msg.MsgModel Msg.MsgApi Flt.FltModel Flt.FltArchive Flt.FltParse Flt.FltMatch Flt.FltObject.
 Definition tc_bool := c_B_BOOL_TYPE.     Definition tc_double := c_B_DOUBLE_TYPE.  Definition tc_float := c_B_FLOAT_TYPE.
 Definition tc_int64 := c_B_INT64_TYPE.   Definition tc_int32 := c_B_INT32_TYPE.    Definition tc_int16 := c_B_INT16_TYPE.
 Definition tc_int8 := c_B_INT8_TYPE.     Definition tc_message := c_B_MESSAGE_TYPE. Definition tc_point := c_B_POINT_TYPE.
@@ -11,4 +11,5 @@ Definition tc_any := c_B_ANY_TYPE.
 Extraction "flt_model.ml"
   byte_of_N N_of_byte len step empty_msg ftype_of_tc elem_size flatten
   eval to_archive from_archive fdepth parse_expr smatch_ere pattern_supported
+  fresh so_filter so_cache obj_eval_all obj_set_from_archive obj_set_operator obj_set_value
   tc_bool tc_double tc_float tc_int64 tc_int32 tc_int16 tc_int8 tc_message tc_point tc_rect tc_string tc_raw tc_any.
